@@ -832,11 +832,15 @@ impl SetU32 {
                 let x = SetU32(ptr);
                 (*x.0).b.cap = cap as u32;
                 (*x.0).b.bits = if bits == 0 {
-                    let mut b = 0;
-                    while b <= 32 {
-                        b = crate::rand::rand32(cap as u32, bits);
+                    // One draw; a draw that collides with the format selector
+                    // values 0..=32 is moved past them rather than redrawn, because
+                    // the generator may be a pure function of its arguments.
+                    let b = crate::rand::rand32(cap as u32, bits);
+                    if b <= 32 {
+                        b + 33
+                    } else {
+                        b
                     }
-                    b
                 } else {
                     bits
                 };
@@ -1013,13 +1017,15 @@ impl SetU32 {
                     // changing the "bits" is $O(N)$, so it's worth
                     // a high O(1) cost to reduce collisions.
                     let had_zero = p_remove(s.bits, a, 0);
-                    loop {
-                        let i: u32 = crate::rand::rand32(s.cap, s.bits);
-                        if i > 32 && !a.iter().any(|&v| v == i) {
-                            s.bits = i;
-                            break;
-                        }
+                    // One draw, then scan upward to the first value that is usable:
+                    // redrawing could loop forever when the generator is a pure
+                    // function of its arguments, and at most `cap + 33` values
+                    // are unusable.
+                    let mut i: u32 = crate::rand::rand32(s.cap, s.bits);
+                    while i <= 32 || a.iter().any(|&v| v == i) {
+                        i = i.wrapping_add(1);
                     }
+                    s.bits = i;
                     if had_zero {
                         a[p_insert(s.bits, a, 0)] = s.bits;
                     }
